@@ -48,15 +48,22 @@ def discr(desc, why):
     return "msg=%s%s,%s" % (tag, extra, why)
 
 
-def check_transition(alpha, views, path, ai, snoop, res, viol):
+def check_transition(alpha, views, path, ai, snoop, res, viol, second_history=False):
     rc = CC.RealClient(snoop)
     m = CM.Mirror()
     for k, pi in enumerate(path):
         ev, exc = rc.feed(alpha[pi], k)
         m.step(views[pi])
         if exc is not None:
+            if second_history and ai == 0:
+                from mc import lib
+
+                viol("raises", discr(alpha[pi], lib.exc_site(exc)) + ",second-history", "history %r: message %d raised %r" % (path, k, exc), {"kind": "graph", "path": list(path[:k]), "msg": pi, "snoop": snoop})
             return  # reported at the transition where it first happens
     if not CC.views_equal(rc.view(), m.canon()):
+        if second_history and ai == 0:
+            # not a BFS-tree path: nobody else reports what this history does to the view
+            viol("mirror-differs", discr(alpha[path[-1]], "view") + ",second-history", "after the history %r: client %r, reference %r" % (path, rc.view(), m.canon()), {"kind": "graph", "path": list(path[:-1]), "msg": path[-1], "snoop": snoop})
         return  # divergence already reported on an earlier transition
     before_view = rc.view()
     must, may = m.step(views[ai])
@@ -210,6 +217,12 @@ def run_shard(shard):
             res["states"] += 1
             for ai in range(len(alpha)):
                 check_transition(alpha, views, path, ai, snoop, res, viol)
+            alt = getattr(order, "alt", {}).get(si)
+            if alt is not None and not snoop:
+                # the same model state entered by another, longer history: same view, same transitions
+                res["counters"]["states_entered_by_a_second_history"] = res["counters"].get("states_entered_by_a_second_history", 0) + 1
+                for ai in range(len(alpha)):
+                    check_transition(alpha, views, alt, ai, snoop, res, viol, second_history=True)
         if idx == 0 and not snoop:
             res["samples"].append({"alphabet_size": len(alpha), "model_states": len(order), "max_depth": max(len(p) for _, p in order), "example_path": [alpha[i][0] for i in order[-1][1]]})
             res["counters"]["model_states"] = len(order)
